@@ -6,10 +6,18 @@ ALL = ["C%02d" % i for i in range(1, 21)]
 
 # id -> (level, technique, text, note)
 CHECKS = {
+ "C02": ("exploration",
+         "runtime invariant monitor at the quiescent point after Build: independent well-formedness/dominance/typing oracle (harness/irwf) walked over every built function",
+         "Every function body the real builder returns (generated goto-CFG packages under all 16 mode combinations; std, the repository and analyzer testdata under several modes; everything x 16 modes in the thorough tier) is walked by an oracle that shares no code with sanity.go and computes its own dominators: block/terminator/arity rules, Preds/Succs and Operands/Referrers as exact inverses, phi placement/arity/typing, def-dominates-use (phi operands at the end of the predecessor), and the documented typing rules of ~40 instruction kinds. Held on the functions observed.",
+         "trusted: harness/irwf; typing rules are skipped for instructions mentioning type parameters; the only cross-root use allowed is the Recover block loading entry-block result allocs."),
  "C09": ("exploration",
          "runtime differential monitor: real pattern matcher vs. functional reference matcher on generated (pattern, syntax tree) cases + recall-equality oracle",
          "Every generated case runs the real Matcher (3 spellings of the same pattern: name@P, (Binding \"name\" P), mixed) and a purely functional reference matcher; verdict and visible bindings must be identical, and every recall of a repeated name must have matched a structurally equal subtree (checked with go/printer). Held on the executions observed; reach is what the generator produces (Or/Not decoys that bind then fail, nested Ors, list tails, recalls).",
          "trusted: harness/refmodel/matcher (written from pattern/doc.go), go/printer for structural equality, the generator's well-formedness discipline (a name gets a sub-pattern at most once per success path)."),
+ "C14": ("exploration",
+         "runtime differential monitor: BasicBlock.Dominates/Idom/Dominees/DomPreorder/DomPostorder vs. reachability-after-removal on every built function",
+         "For every function built from goto-generated arbitrary CFGs (irreducible loops, recover blocks) and from real packages, all ordered block pairs (up to 300 blocks; 20000 seeded pairs above) are compared with the path definition: a dominates b iff b is unreachable from its root (entry, or the Recover block for blocks reachable only from it) once a is removed; Idom/Dominees/pre-/post-order listings must be consistent with that relation.",
+         "trusted: the BFS reachability oracle in harness/c14; CFGs are those the builder produced (Preds/Succs as returned, whose mutual consistency is C02's business)."),
  "C13": ("exploration",
          "runtime reference-model monitor: solver output vs. naive Kleene iteration on generated graphs/IR functions; exhaustive/seeded lattice-law evaluation",
          "dense.Forward and sparse.Forward are run on thousands of generated instances; the result must satisfy the dataflow equations and equal the least fixpoint computed by round-robin iteration from bottom; a logical step budget (transfer calls) detects non-termination; lattice laws are evaluated on all 25^3 triples of the nilness lattice and on seeded triples of Map/DenseMap elements.",
